@@ -295,6 +295,19 @@ func (e *Exec) do(ws []string) string {
 			return "bad-op"
 		}
 		return e.Dump()
+	case "dumpx":
+		// the rows other than missing| rows (after failing Deletes the set of stale missing| rows
+		// depends on the order in which the re-index goroutines ran)
+		if len(ws) != 1 {
+			return "bad-op"
+		}
+		var rows []string
+		for _, r := range e.Rows() {
+			if !strings.HasPrefix(r, "missing|") {
+				rows = append(rows, r)
+			}
+		}
+		return joinOrDashSep(rows, ";")
 	case "pend":
 		if len(ws) != 1 {
 			return "bad-op"
